@@ -47,9 +47,44 @@ KINDS = ['px', 'py', 'pz', 'so', 's', 'cz', 'c/x', 'p', 'cy', 'sx', 'px',
          'py', 'pz']
 
 
-def fresh_surface(rng, sid, used):
+def fresh_surface(rng, sid, used, dck=None):
     '''A simple surface that coincides with no other surface of the deck and
-    with neither union helper plane (x = 1, x = -1).'''
+    with neither union helper plane (x = 1, x = -1).  Some are near-twins of
+    an earlier surface (same mnemonic, same leading parameters, another last
+    parameter: concentric spheres, coaxial cylinders, parallel planes with the
+    same offset on another axis) or tilted tori at the origin that differ
+    only by their rotation.'''
+    r = rng.random()
+    if dck is not None and r < 0.12:
+        # torus centred at the origin, tilted about x: TORUSZ + TRANSFORM
+        prm = [0.0, 0.0, 0.0, rng.choice([2.0, 2.5]), 0.5, rng.choice([0.5, 0.75])]
+        ang = rng.choice([30, 45, 60, 120])
+        sig = ('tz', tuple(prm), ang)
+        if sig not in used:
+            used.add(sig)
+            n = rng.randint(61, 90)
+            while n in dck['transforms']:
+                n = rng.randint(61, 90)
+            dck['transforms'][n] = deckmod.make_tr([0, 0, 0],
+                                                   deckmod.rotation(0, ang))
+            return {'id': sid, 'mn': 'tz', 'params': prm, 'tr': n, 'bc': ''}
+    if dck is not None and r < 0.35 and dck['surfaces']:
+        base = rng.choice(dck['surfaces'])
+        mn, prm = base['mn'], list(base['params'])
+        if base.get('tr') is None and mn in ('s', 'c/x', 'sx', 'so', 'cz', 'cy'):
+            prm[-1] = prm[-1] + rng.choice([0.5, 0.75, 1.25])
+            sig = (mn, tuple(prm))
+            if sig not in used:
+                used.add(sig)
+                return {'id': sid, 'mn': mn, 'params': prm, 'tr': None,
+                        'bc': ''}
+        if base.get('tr') is None and mn in ('px', 'py', 'pz'):
+            other = rng.choice([m for m in ('px', 'py', 'pz') if m != mn])
+            sig = (other, tuple(prm))
+            if sig not in used:
+                used.add(sig)
+                return {'id': sid, 'mn': other, 'params': prm, 'tr': None,
+                        'bc': ''}
     for _ in range(200):
         surf = deckmod.random_surface(rng, sid, scale=4.0, kinds=KINDS)
         prm = surf['params']
@@ -126,7 +161,7 @@ def gen_deck(rng):
     next_cid = [1]
     shared_tr = []
     info = {'lattice': False, 'unions': 0, 'impure_unions': 0, 'dups': 0,
-            'helper_twin': False, 'depth': depth}
+            'helper_twin': False, 'depth': depth, 'slivers': 0}
 
     def new_cid():
         cid = next_cid[0]
@@ -147,7 +182,7 @@ def gen_deck(rng):
             n_leaves = n_cells + rng.choice([0, 1, 2])
             sids = []
             for _ in range(n_leaves - 1 + rng.choice([0, 0, 1])):
-                surf = fresh_surface(rng, next_sid[0], used)
+                surf = fresh_surface(rng, next_sid[0], used, dck)
                 next_sid[0] += 1
                 dck['surfaces'].append(surf)
                 sids.append(surf['id'])
@@ -204,7 +239,20 @@ def gen_deck(rng):
         for cell in dck['cells']:
             cell['expr'] = substitute(rng, cell['expr'], surf['id'],
                                       twin['id'], 0.5)
-    if rng.random() < 0.06:
+        if rng.random() < 0.4:
+            # a sliver between the two copies: `a -a'` is empty, `a : -a'` is
+            # everything; both only after de-duplication patently so
+            cell = rng.choice([c for c in dck['cells'] if not c.get('lat')])
+            a = surf['id'] if rng.random() < 0.5 else -surf['id']
+            b = -twin['id'] if a > 0 else twin['id']
+            info['slivers'] += 1
+            if rng.random() < 0.6:
+                cell['expr'] = (':', ('*', deckmod.S(a), deckmod.S(b)),
+                                cell['expr'])
+            else:
+                cell['expr'] = ('*', cell['expr'],
+                                (':', deckmod.S(a), deckmod.S(b)))
+    if rng.random() < 0.1:
         # a user plane equal to a union helper plane (known finding class)
         info['helper_twin'] = True
         dck['surfaces'].append({'id': next_sid[0], 'mn': 'px',
